@@ -25,6 +25,7 @@ import ClipperVerif.Driver.C10Isect
 import ClipperVerif.Driver.AelOrder
 import ClipperVerif.Driver.AelRings
 import ClipperVerif.Driver.C06Joins
+import ClipperVerif.Driver.TrimHorz
 namespace Clipper.Driver
 open Clipper.Proto
 
@@ -55,7 +56,8 @@ def handlers : List (String → Option (P String)) := [
   C10Isect.handle,
   AelOrder.handle,
   AelRings.handle,
-  C06Joins.handle
+  C06Joins.handle,
+  TrimHorz.handle
 ]
 
 def dispatch1 (cmd : String) : Option (P String) :=
